@@ -1,13 +1,18 @@
 #!/usr/bin/env python3
-"""Apply every stored seeded change to /repo in turn, run the quick check of its property, undo it,
-and record what the check reported.  usage: tools/seed_regression.py [ids...]   (default: all)
+"""Apply every stored seeded change in turn to a scratch worktree of /repo's HEAD, run the quick check
+of its property against that worktree (SLT_REPO: /repo itself is never touched, so an interrupted run
+cannot leave a patch behind), undo it, and record what the check reported.
+usage: tools/seed_regression.py [ids...]   (default: all)
 
-Writes seeded/REGRESSION.json and prints one line per seed.  /repo must be clean before and is
-clean afterwards; nothing is ever committed there."""
+Writes seeded/REGRESSION.json and prints one line per seed; the worktree (/tmp/seedreg/wt) is removed at
+the end.  Nothing is ever committed to /repo."""
 import glob, json, os, re, subprocess, sys, time
 
 ROOT = os.path.dirname(os.path.dirname(os.path.abspath(__file__)))
-REPO = "/repo"
+MAIN_REPO = "/repo"
+# SEEDREG_LANE=k: several regressions side by side (own worktree, own harness build, own results file)
+LANE = os.environ.get("SEEDREG_LANE", "")
+REPO = "/tmp/seedreg/wt" + LANE
 
 
 def sh(cmd, **kw):
@@ -16,10 +21,17 @@ def sh(cmd, **kw):
 
 def main():
     ids = sys.argv[1:] or sorted(os.path.basename(d) for d in glob.glob(os.path.join(ROOT, "seeded", "C*_*")))
-    if sh(["git", "-C", REPO, "status", "--porcelain"]).stdout.strip():
-        print("refusing to run: /repo has uncommitted changes")
+    if sh(["git", "-C", MAIN_REPO, "status", "--porcelain"]).stdout.strip():
+        print("refusing to run: /repo has uncommitted changes (the worktree is taken from HEAD)")
         return 2
-    out_path = os.path.join(ROOT, "seeded", "REGRESSION.json")
+    if os.path.exists(REPO):
+        sh(["git", "-C", MAIN_REPO, "worktree", "remove", "--force", REPO])
+    os.makedirs(os.path.dirname(REPO), exist_ok=True)
+    a = sh(["git", "-C", MAIN_REPO, "worktree", "add", "-q", "--detach", REPO, "HEAD"])
+    if a.returncode != 0:
+        print("cannot create the scratch worktree:", a.stdout)
+        return 2
+    out_path = os.path.join(ROOT, "seeded", "REGRESSION.json" if not LANE else f"REGRESSION.lane{LANE}.json")
     results = json.load(open(out_path)) if os.path.exists(out_path) else {}
     head = sh(["git", "-C", REPO, "rev-parse", "--short", "HEAD"]).stdout.strip()
     missed = 0
@@ -39,7 +51,8 @@ def main():
         t0 = time.time()
         try:
             r = sh(["python3", os.path.join(ROOT, "tools", "check.py"), pid, "--tier", "quick"], cwd=ROOT,
-                   env=dict(os.environ, CARGO_NET_OFFLINE="true"))
+                   env=dict(os.environ, CARGO_NET_OFFLINE="true", SLT_REPO=REPO, SLT_ALT_TAG=LANE,
+                            SLT_SCRATCH=os.path.join(ROOT, "out", "scratch" + LANE)))
         finally:
             sh(["git", "-C", REPO, "reset", "-q"])
             sh(["git", "-C", REPO, "checkout", "--", "."])
@@ -61,7 +74,8 @@ def main():
               f"disagreements={results[sid]['disagreements']} oracle_failures={results[sid]['oracle_failures']} "
               f"({results[sid]['wall_s']} s)", flush=True)
         json.dump(results, open(out_path, "w"), indent=1, sort_keys=True)
-    if sh(["git", "-C", REPO, "status", "--porcelain"]).stdout.strip():
+    sh(["git", "-C", MAIN_REPO, "worktree", "remove", "--force", REPO])
+    if sh(["git", "-C", MAIN_REPO, "status", "--porcelain"]).stdout.strip():
         print("WARNING: /repo is not clean after the run")
     print(f"missed: {missed}")
     return 1 if missed else 0
